@@ -151,3 +151,75 @@ def yielded_vs_claims(yielded, log_events):
         if claims.get(k, 0) < n:
             out.append(("yielded-without-claim", f"runner {k[0]} received invocation {k[1][:8]} {n}x but claimed it {claims.get(k, 0)}x", {"runner": k[0], "inv": k[1]}))
     return out
+
+
+def history_check(app, log_events, model: Lifecycle, inv_ids=None, tol=2e-6):
+    """C10: after the flush, the stored history of every invocation is exactly its successful status changes.
+
+    Ground truth = registration probe + in-lock transition hook (content and order), each with the runner that
+    requested it.  Returns (violations, stats)."""
+    out = []
+    expected = defaultdict(list)   # inv -> [(status, owner, ts, requester)]
+    for e in log_events:
+        if e["kind"] == "registered":
+            for i in e["invs"]:
+                expected[i].append((e["new"][0], e["new"][1], e["new"][2], e["runner"]))
+        elif e["kind"] == "transition" and e["error"] is None and e["inv"] is not None:
+            expected[e["inv"]].append((e["new"][0], e["new"][1], e["new"][2], e["runner"]))
+    # cross-check against the client boundary: every successful public set_invocation_status is one hook entry
+    pub = defaultdict(int)
+    for e in log_events:
+        if e["kind"] == "set_status" and e["ok"]:
+            pub[e["inv"]] += 1
+    stats = {"invocations": 0, "entries": 0, "nonlinear": 0}
+    ids = inv_ids if inv_ids is not None else list(expected)
+    for inv in ids:
+        exp = expected.get(inv, [])
+        try:
+            stored = app.state_backend.get_history(inv)
+        except Exception as e:
+            out.append(("history:get-raised", f"get_history({inv[:8]}) raised {type(e).__name__}: {e}", {}))
+            continue
+        got = [(h.status_record.status.name, h.status_record.runner_id, h.status_record.timestamp.timestamp(), h.runner_context_id, h.invocation_id) for h in stored]
+        stats["invocations"] += 1
+        stats["entries"] += len(got)
+        if any(s in ("RETRY", "REROUTED", "KILLED", "PENDING_RECOVERY", "RUNNING_RECOVERY", "CONCURRENCY_CONTROLLED") for s, *_ in exp):
+            stats["nonlinear"] += 1
+        wit = {"inv": inv, "expected": [list(x) for x in exp], "stored": [list(x) for x in got]}
+        for g in got:
+            if g[4] != inv:
+                out.append(("history:filed-under-other-invocation", f"entry of {g[4][:8]} stored under {inv[:8]}", wit))
+        # multiset comparison with timestamp tolerance
+        rest = list(got)
+        missing = []
+        for x in exp:
+            hit = next((g for g in rest if g[0] == x[0] and g[1] == x[1] and abs(g[2] - x[2]) <= tol and g[3] == x[3]), None)
+            if hit is None:
+                # distinguish a wrong attribution from a missing entry
+                near = next((g for g in rest if g[0] == x[0] and abs(g[2] - x[2]) <= tol), None)
+                if near is not None:
+                    rest.remove(near)
+                    what = "owner" if near[1] != x[1] else "runner"
+                    out.append((f"history:wrong-{what}", f"invocation {inv[:8]}: change to {x[0]} by {x[3]} (owner {x[1]}) is recorded with owner {near[1]} / runner {near[3]}", wit))
+                else:
+                    missing.append(x)
+            else:
+                rest.remove(hit)
+        for x in missing:
+            out.append((f"history:missing-entry:{x[0]}", f"invocation {inv[:8]}: successful change to {x[0]} by {x[3]} has no history entry", wit))
+        for g in rest:
+            out.append((f"history:extra-entry:{g[0]}", f"invocation {inv[:8]}: history entry {g[0]} (runner {g[3]}) does not correspond to any successful change", wit))
+        if len(exp) - 1 != pub.get(inv, 0) and pub:
+            out.append(("history:hook-vs-public-mismatch", f"invocation {inv[:8]}: {len(exp) - 1} in-lock changes but {pub.get(inv, 0)} successful public status calls", wit))
+        # ordered by the time of the change: a documented path from REGISTERED ending at the current status
+        seq = [g[0] for g in sorted(got, key=lambda g: g[2])]
+        if seq and not missing and not rest:
+            if seq[0] != "REGISTERED" or not model.is_path(seq):
+                out.append(("history:not-a-path", f"invocation {inv[:8]}: history ordered by change time is {seq}", wit))
+            try:
+                cur = app.orchestrator.get_invocation_status_record(inv)
+                if cur.status.name != seq[-1]:
+                    out.append(("history:last-entry-not-current-status", f"invocation {inv[:8]}: last history entry {seq[-1]}, current status {cur.status.name}", wit))
+            except KeyError:
+                pass
+    return out, stats
